@@ -276,8 +276,10 @@ class Clip:
     """positive-side part of a list of polygons under successive half spaces, with the documented conventions:
     |dot| <= THR is on the plane; a polygon lying in the plane is kept iff its normal opposes the slicing normal."""
 
-    def __init__(self, polys):
+    def __init__(self, polys, scale=None):
         self.polys = [np.asarray(p, dtype=np.float64) for p in polys]
+        # |dot| below 1e-11 * scale * |n| is rounding noise of a vertex meant to be on the plane, not a "snapped" vertex
+        self.scale = float(scale) if scale is not None else max([float(np.abs(p).max()) for p in self.polys if len(p)] + [1e-300])
         self.ambiguous = False
         # a vertex with 0 < |dot| <= THR is "on the plane" by the documented tolerance although it is not: the part of
         # its polygon within that band of the plane (area <= area * 4 delta / range of dots) may go to either side
@@ -308,9 +310,11 @@ class Clip:
                 delta = float(a[sn].max())
                 rng = float(d.max() - d.min())
                 self.snap_area += float(np.linalg.norm(poly_vector_area(P))) * (min(1.0, 4.0 * delta / rng) if rng > 4.0 * delta else 1.0)
-                self.snap_dist = max(self.snap_dist, delta / float(np.linalg.norm(normal)))
-                if (d > THR).any() and (d < -THR).any():
-                    self.snapped_cut = True
+                sig = sn & (a > 1e-11 * self.scale * float(np.linalg.norm(normal)))
+                if sig.any():
+                    self.snap_dist = max(self.snap_dist, float(a[sig].max()) / float(np.linalg.norm(normal)))
+                    if (d > THR).any() and (d < -THR).any():
+                        self.snapped_cut = True
             mn, mx = s.min(), s.max()
             if mn == 0 and mx == 0:
                 nv = poly_vector_area(P)
